@@ -22,7 +22,11 @@ GEN_TIES = {'Rankscore': 'Props/GenTie_Rankscore.v'}
 TIE = {'convert.py converters, vote.py subsetters': 'correspondence',
        'component/rankscore.py Dowdall / Geometric / ModifiedBorda / FixedTop': 'translator (per-rank score expressions regenerated into Gen/Rankscore.v on '
                                                                                    'every run, Props/GenTie_Rankscore.v proves them equal to Model/Convert.v rank_scores) + correspondence',
-       'component/rankscore.py Borda (stateful) / SequenceBased (slicing)': 'correspondence',
+       'component/rankscore.py select_padded / Borda.set_n_candidates / Borda.scores (initialised scorer) / SequenceBased.scores':
+           'translator (typed translation of the list slicing / padding and of the stored score list into Gen/Rankscore.v; '
+           'Props/GenTie_Rankscore.v GenTie_Rankscore_lists proves them equal to select_padded / rank_scores of Model/Convert.v and to '
+           'borda_set_n / borda_scores_st of Model/State.v) + correspondence',
+       'component/rankscore.py Borda.scores on an uninitialised scorer (RuntimeError)': 'correspondence (C18)',
        'convert.py VoteTotals / MergedDistributions / ConstituencyTotals / PartyTotals / InvertedSimpleVotes / GroupVotesByParty / '
        'IndividualToPartyResult / SelectionToDistribution / MergedSelections / ByConstituency / Chain (Model/Convert2.v, unit 210)': 'correspondence',
        'convert.py RoundedVotes (alone, behind Chain, inside ByConstituency)': 'correspondence with Model/Convert2.v round_q (exact rounding) inside the 28 digit '
@@ -1180,7 +1184,8 @@ def explore(ctx, widen=1):
     ctx.differential('corpus', [c for c in cp if c.get('unit') not in ('rounded', 'code')], model_line, impl, **kw)
     rounded_stream(ctx, 'corpus-rounded', [c for c in cp if c.get('unit') == 'rounded'])
     code_stream(ctx, 'corpus-code', [c for c in cp if c.get('unit') == 'code'])
-    ctx.differential('random', gen(ctx.rng, ctx.n(3000, 40000) * widen), model_line, impl, **kw)
+    # rank scorers the translator rejected are tied by this stream alone: denser (DESIGN.md 2.1 fallback)
+    ctx.differential('random', gen(ctx.rng, ctx.n(3000, 40000) * widen * (3 if 'Rankscore' in ctx.fallback else 1)), model_line, impl, **kw)
     code_stream(ctx, 'totals', gen_totals(ctx.rng, ctx.n(1200, 15000) * widen))
     code_stream(ctx, 'chain', gen_chain(ctx.rng, ctx.n(1500, 20000) * widen))
 
